@@ -404,8 +404,173 @@ class ThreadingShim:
         self._n += 1
         return SimRLock(self._sched, "rlock#%d" % self._n)
 
+    def Condition(self, lock=None):
+        self._n += 1
+        return SimCondition(self._sched, lock if lock is not None else self.RLock(), "cond#%d" % self._n)
+
+    def Event(self):
+        self._n += 1
+        return SimFlag(self._sched, "event#%d" % self._n)
+
+    def Semaphore(self, value=1):
+        self._n += 1
+        return SimSemaphore(self._sched, value, "sem#%d" % self._n)
+
+    BoundedSemaphore = Semaphore
+
     def __getattr__(self, name):
         return getattr(self._real, name)
+
+
+class SimCondition:
+    """threading.Condition over a SimLock/SimRLock: waiters are woken in FIFO order like the real one, waiting is
+    visible to the scheduler (a thread nobody notifies ends the run as a deadlock), timed waits may expire."""
+
+    def __init__(self, sched, lock, name):
+        self.sched = sched
+        self.lock = lock
+        self.name = name
+        self.owner = None  # for the scheduler's deadlock message
+        self.cwaiters = []
+        self.acquire = lock.acquire
+        self.release = lock.release
+
+    def __enter__(self):
+        return self.lock.acquire()
+
+    def __exit__(self, *a):
+        self.lock.release()
+
+    def _release_save(self):
+        lk = self.lock
+        if isinstance(lk, SimRLock):
+            d = lk.depth
+            lk.depth = 1
+            lk.release()
+            return d
+        lk.release()
+        return None
+
+    def _acquire_restore(self, d):
+        self.lock.acquire()
+        if d is not None:
+            self.lock.depth = d
+
+    def wait(self, timeout=None):
+        s = self.sched
+        me = s.me()
+        if me is None or self.lock.owner is not me:
+            raise RuntimeError("cannot wait on un-acquired lock")
+        token = [False]
+        self.cwaiters.append((me, token))
+        d = self._release_save()
+        if timeout is not None and not token[0] and s.decide_timeout():
+            self.cwaiters = [w for w in self.cwaiters if w[1] is not token]
+            self._acquire_restore(d)
+            return False
+        while not token[0]:
+            s.block(self)
+        self._acquire_restore(d)
+        return True
+
+    def wait_for(self, predicate, timeout=None):
+        r = predicate()
+        while not r:
+            if not self.wait(timeout) and timeout is not None:
+                return predicate()
+            r = predicate()
+        return r
+
+    def notify(self, n=1):
+        me = self.sched.me()
+        if me is not None and self.lock.owner is not me:
+            raise RuntimeError("cannot notify on un-acquired lock")
+        woken, self.cwaiters = self.cwaiters[:n], self.cwaiters[n:]
+        for w, token in woken:
+            token[0] = True
+            w.blocked_on = None
+
+    def notify_all(self):
+        self.notify(len(self.cwaiters))
+
+    notifyAll = notify_all
+
+
+class SimFlag:
+    """threading.Event the scheduler can see"""
+
+    def __init__(self, sched, name):
+        self.sched = sched
+        self.name = name
+        self.owner = None
+        self.flag = False
+        self.waiters = []
+
+    def is_set(self):
+        return self.flag
+
+    isSet = is_set
+
+    def set(self):
+        self.flag = True
+        for w in self.waiters:
+            w.blocked_on = None
+        self.waiters = []
+        if self.sched.me() is not None:
+            self.sched.point("event.set:" + self.name)
+
+    def clear(self):
+        self.flag = False
+
+    def wait(self, timeout=None):
+        s = self.sched
+        me = s.me()
+        if me is None:
+            return self.flag
+        s.point("event.wait:" + self.name)
+        while not self.flag:
+            if timeout is not None and s.decide_timeout():
+                return False
+            self.waiters.append(me)
+            s.block(self)
+        return True
+
+
+class SimSemaphore:
+    def __init__(self, sched, value, name):
+        self.sched = sched
+        self.name = name
+        self.owner = None
+        self.value = value
+        self.waiters = []
+
+    def acquire(self, blocking=True, timeout=None):
+        s = self.sched
+        me = s.me()
+        if me is not None:
+            s.point("sem.acquire:" + self.name)
+        while self.value <= 0:
+            if not blocking or me is None:
+                return False
+            if timeout is not None and s.decide_timeout():
+                return False
+            self.waiters.append(me)
+            s.block(self)
+        self.value -= 1
+        return True
+
+    def release(self, n=1):
+        self.value += n
+        for w in self.waiters:
+            w.blocked_on = None
+        self.waiters = []
+        if self.sched.me() is not None:
+            self.sched.point("sem.release:" + self.name)
+
+    __enter__ = acquire
+
+    def __exit__(self, *a):
+        self.release()
 
 
 class SimEvent:
